@@ -404,6 +404,11 @@ def run(F, rep, tier):
         negs = [c for b_ in bodies for c in b_.calls if c.callee.get('tr') == 'std::ops::Neg' and 'NNum' in c.target]
         return negs
     fold_neg = [c for c in fb.calls if c.callee.get('tr') == 'std::ops::Neg' and 'NNum' in c.target]
+    if not fold_neg:
+        # the fold may live in a helper extracted from freeze: look one level into its non-freeze-family local callees
+        for c0 in fb.calls:
+            if F.has_fn(c0.target) and c0.target.startswith('core::') and not is_ff(c0.target):
+                fold_neg += [c for c in F.body(c0.target).calls if c.callee.get('tr') == 'std::ops::Neg' and 'NNum' in c.target]
     mimp = [imp for imp in F.impls_of('core::Builtin') if imp['self_ty'] == 'Minus']
     if not mimp:
         rep.error('R17.8', 'impl Builtin for Minus missing')
